@@ -100,15 +100,20 @@ class LineInjector:
         self.count = 0
         self.fired = 0
         self.where = None
+        self.funcs = []
         self.thread = threading.get_ident()
+        self.pid = os.getpid()
         self.prefix = os.path.join(os.environ.get('LV_REPO', '/repo'), 'labtech')
 
     def _local(self, frame, event, arg):
+        if os.getpid() != self.pid:
+            return None
         if event == 'line':
             n = self.count
             self.count += 1
             if self.target is None:
                 self.files.append(os.path.basename(frame.f_code.co_filename))
+                self.funcs.append(frame.f_code.co_name)
             if self.target is not None and n == self.target:
                 self.fired += 1
                 self.where = f'{os.path.relpath(frame.f_code.co_filename, self.prefix)}:{frame.f_lineno} ({frame.f_code.co_name})'
@@ -116,8 +121,8 @@ class LineInjector:
         return self._local
 
     def _global(self, frame, event, arg):
-        if threading.get_ident() != self.thread:
-            return None
+        if threading.get_ident() != self.thread or os.getpid() != self.pid:
+            return None         # (a forked worker inherits the trace function: it must stay inert there)
         if frame.f_code.co_filename.startswith(self.prefix):
             return self._local
         return None
@@ -152,6 +157,11 @@ def stage_lines(report, tier, rng, dist, runner):
         case = S.gen_case(rng, runner=runner, max_n=4, p_fail=0.2, allow_dups=False)
         case['pre'] = []
         case['max_workers'] = 2
+        if runner == 'l2' and ci == 0:
+            # independent tasks queueing behind two workers: queued tasks are launched from inside wait()
+            nn = 4
+            case.update(n=nn, types=[0] * nn, specs=[['tuple', []] for _ in range(nn)], reads=[[] for _ in range(nn)], behs=['ok'] * nn,
+                        req=[[t, 0] for t in range(nn)], storage='local', bust=False, cont=True)
         if ci == 1:
             case['cont'] = False
         if runner == 'serial':
@@ -165,7 +175,21 @@ def stage_lines(report, tier, rng, dist, runner):
             targets = list(range(total))
         else:
             k = {('serial', 'quick'): 90, ('l2', 'quick'): 40, ('l2', 'thorough'): 400}[(runner, tier)]
-            targets = sorted(set(rng.sample(range(total), min(total, k)) + (rng.sample(save_path, min(len(save_path), 60)) if runner == 'serial' else [])))
+            # under the process runner: the few-line windows inside the executor (a result being applied, a worker being
+            # launched, futures being cancelled or stopped) are targeted on top of the uniform sample
+            exec_lines = [i for i, (f, fn) in enumerate(zip(inj.files, inj.funcs)) if f == 'process.py' and 'log' not in fn and 'monitor' not in fn.lower()]
+            # every line boundary inside the executor's own state changes (launching a worker, applying a result, cancel, stop)
+            critical = [i for i in exec_lines if inj.funcs[i] in ('_start_processes', '_consume_result_queue', '_consume', 'submit', 'cancel', 'stop',
+                                                                   'set_result', 'set_exception', 'result', 'join', 'close')]
+            dist[f'{runner}_executor_line_events'] += len(exec_lines) if runner == 'l2' else 0
+            if runner == 'serial':
+                extra = rng.sample(save_path, min(len(save_path), 60))
+            else:
+                rest = [i for i in exec_lines if i not in critical]
+                extra = (critical if (ci == 0 or tier == 'thorough') else rng.sample(critical, min(len(critical), 40))) + \
+                    rng.sample(rest, min(len(rest), 40 if tier == 'quick' else 400))
+                dist['l2_critical_line_events_targeted'] += len(critical) if (ci == 0 or tier == 'thorough') else min(len(critical), 40)
+            targets = sorted(set(rng.sample(range(total), min(total, k)) + extra))
         for tgt in targets:
             obs, inj = run_lines(case, tgt, runner)
             runs += 1
